@@ -354,3 +354,6 @@ def selftest(ctx, args):
             print(f"SELFTEST-FAILED {cid}: verdict {kind} ({detail[:120]})")
     print("selftest C01 (IRMachine trace binding):", json.dumps(summary, sort_keys=True))
     return 0 if bad == 0 and any(k.endswith(":rejected") for k in summary) else 2
+
+
+replay = common.replay_vm_case
